@@ -993,4 +993,131 @@ theorem ehrlichOK_all (n k : Nat) (hk : k ≤ n) : ehrlichOK n k = true := by
   exact ⟨h2, h3⟩
 
 
+/-! ### the initial strings of the hyperspherical binary encoder -/
+
+theorem ehrLast_of_SE (σ ρ : List Bool) (h : SE σ ρ) : ehrLast σ = ρ := by
+  have := (ehrlich_walk_shape σ ρ h).2.2.2.2
+  unfold ehrLast
+  rw [this]
+
+/-- odd weight: the lowest empty position is filled. -/
+theorem hsNext_odd (a w : Nat) (rest : List Bool) (hw : w % 2 = 1) :
+    hsNextInit (replicate a true ++ false :: rest) w = replicate a true ++ true :: rest := by
+  unfold hsNextInit
+  have hne : ¬ w % 2 = 0 := by omega
+  simp only [hne, if_false]
+  have hhead : ((List.range (replicate a true ++ false :: rest).length).filter
+      (fun i => !(replicate a true ++ false :: rest).getD i false)).head? = some a := by
+    apply head?_filter_range _ _ a (by simp)
+    · have := getD_rep_ge a 0 true (false :: rest)
+      simp only [Nat.add_zero] at this
+      simp only [this]
+      rfl
+    · intro j hj
+      simp only [getD_rep_lt a j true _ hj]
+      rfl
+  rw [hhead]
+  have := set_rep a 0 true true (false :: rest)
+  simpa using this
+
+theorem getD_replicate_lt (u t : Nat) (v : Bool) (h : t < u) : (replicate u v).getD t false = v := by
+  have := getD_rep_lt u t v [] h
+  simpa using this
+
+/-- even weight: the highest empty position is filled. -/
+theorem hsNext_even (z u w : Nat) (hw : w % 2 = 0) :
+    hsNextInit (replicate z false ++ false :: replicate u true) w
+      = replicate z false ++ true :: replicate u true := by
+  unfold hsNextInit
+  simp only [hw, if_true]
+  have hlast : ((List.range (replicate z false ++ false :: replicate u true).length).filter
+      (fun i => !(replicate z false ++ false :: replicate u true).getD i false)).getLast? = some z := by
+    apply getLast?_filter_range _ _ z (by simp)
+    · have := getD_rep_ge z 0 false (false :: replicate u true)
+      simp only [Nat.add_zero] at this
+      simp only [this]
+      rfl
+    · intro j h1 h2
+      obtain ⟨t, rfl⟩ : ∃ t, j = z + (t + 1) := ⟨j - z - 1, by omega⟩
+      simp only [getD_rep_ge, List.getD_cons_succ]
+      rw [getD_replicate_lt u t true (by simp at h2; omega)]
+      rfl
+  rw [hlast]
+  have := set_rep z 0 false true (false :: replicate u true)
+  simpa using this
+
+theorem hsInitClosed_valid (n w : Nat) :
+    ∃ ρ, SE (hsInitClosed n w) ρ := by
+  unfold hsInitClosed
+  split
+  · exact ⟨_, SE.A w (n - w)⟩
+  · rename_i h
+    exact ⟨_, SE.C (n - w) w (Or.inl (by omega))⟩
+
+/-- `_intermediate_gate` maps the closed form of weight `w` to the closed form of weight `w+1`. -/
+theorem hsNext_closed (n w : Nat) (hw : 1 ≤ w) (hn : w + 2 ≤ n) :
+    hsNextInit (ehrLast (hsInitClosed n w)) w = hsInitClosed n (w + 1) := by
+  obtain ⟨z, rfl⟩ : ∃ z, n = w + (z + 2) := ⟨n - w - 2, by omega⟩
+  have hz : w + (z + 2) - w = z + 2 := by omega
+  have hz1 : w + (z + 2) - (w + 1) = z + 1 := by omega
+  by_cases hev : w % 2 = 0
+  · -- even weight, start 1^w 0^(z+2), end 0^(z+2) 1^w
+    have h1 : hsInitClosed (w + (z + 2)) w = replicate w true ++ replicate (z + 2) false := by
+      simp [hsInitClosed, hev, seStart, hz]
+    have h2 : hsInitClosed (w + (z + 2)) (w + 1) = replicate (z + 1) false ++ replicate (w + 1) true := by
+      have : ¬ (w + 1 = 1 ∨ (w + 1) % 2 = 0) := by omega
+      simp only [hsInitClosed, this, if_false, seStart, hz1]
+    rw [h1, h2, ehrLast_of_SE _ _ (SE.A w (z + 2)), endA_even w (z + 1) hev (by omega)]
+    rw [← rep_append_cons (z + 1) false (replicate w true)]
+    exact hsNext_even (z + 1) w w hev
+  · by_cases h1w : w = 1
+    · subst h1w
+      have h1 : hsInitClosed (1 + (z + 2)) 1 = replicate 1 true ++ replicate (z + 2) false := by
+        simp [hsInitClosed, seStart, hz]
+      have h2 : hsInitClosed (1 + (z + 2)) (1 + 1) = replicate (1 + 1) true ++ replicate (z + 1) false := by
+        simp [hsInitClosed, seStart, hz1]
+      rw [h1, h2, ehrLast_of_SE _ _ (SE.A 1 (z + 2)), endA_odd 1 (z + 1) rfl]
+      exact hsNext_odd 0 1 _ rfl
+    · -- odd weight ≥ 3, start 0^(z+2) 1^w, end 1^w 0^(z+2)
+      have hc : ¬ (w = 1 ∨ w % 2 = 0) := by omega
+      have h1 : hsInitClosed (w + (z + 2)) w = replicate (z + 2) false ++ replicate w true := by
+        simp only [hsInitClosed, hc, if_false, seStart, hz]
+      have h2 : hsInitClosed (w + (z + 2)) (w + 1) = replicate (w + 1) true ++ replicate (z + 1) false := by
+        have : (w + 1 = 1 ∨ (w + 1) % 2 = 0) := Or.inr (by omega)
+        simp only [hsInitClosed, this, if_true, seStart, hz1]
+      rw [h1, h2, ehrLast_of_SE _ _ (SE.C (z + 2) w (Or.inl (by omega)))]
+      rw [← rep_append_cons w true (replicate (z + 1) false)]
+      exact hsNext_odd w w _ (by omega)
+
+theorem hsInitsFrom_closed (n : Nat) : ∀ (fuel w : Nat), 1 ≤ w → w + fuel ≤ n →
+    hsInitsFrom fuel w (hsInitClosed n w) = (List.range fuel).map (fun i => hsInitClosed n (w + i)) := by
+  intro fuel
+  induction fuel with
+  | zero => intro w _ _; rfl
+  | succ fuel ih =>
+    intro w hw hn
+    rw [List.range_succ_eq_map, List.map_cons, List.map_map]
+    simp only [hsInitsFrom, Nat.add_zero]
+    congr 1
+    cases fuel with
+    | zero => rfl
+    | succ f =>
+      rw [hsNext_closed n w hw (by omega), ih (w + 1) (by omega) (by omega)]
+      apply List.map_congr_left
+      intro i _
+      simp only [Function.comp, Nat.succ_eq_add_one]
+      congr 1
+      omega
+
+/-- **the initial strings of all Hamming-weight blocks of the hyperspherical binary encoder**, for
+every number of qubits. -/
+theorem hsInits_closed (n : Nat) (hn : 1 ≤ n) :
+    hsInits n = (List.range (n - 1)).map (fun i => hsInitClosed n (1 + i)) := by
+  have h0 : (true :: replicate (n - 1) false) = hsInitClosed n 1 := by
+    simp [hsInitClosed, seStart]
+  unfold hsInits
+  rw [h0]
+  exact hsInitsFrom_closed n (n - 1) 1 (le_refl _) (by omega)
+
+
 end QV.Enc
